@@ -436,17 +436,47 @@ class Frame:
             self.exec_block(s.orelse, st)
 
     def exec_try(self, s: ast.Try, st: State):
+        """try body, then each handler as an alternative path from the state at
+        the try's entry (the exception may have been raised anywhere in the
+        body), merged under an opaque 'exception raised' condition."""
         ev = self.ev
+        pre = st.copy()
+        heap_pre = dict(ev.heap)
+        had_ret = st.ret
+        st.ret = T.CONT if had_ret is None else had_ret
         self.exec_block(s.body, st)
-        assigned = set()
-        for h in s.handlers:
-            a, _ = _assigned_names(ast.Module(body=h.body, type_ignores=[]))
-            assigned |= a
-        if assigned:
-            for n in assigned:
-                st.env[n] = ev.opaque(f"except:{n}")
         if st.live:
             self.exec_block(s.orelse, st)
+        heap_body = ev.heap
+        for h in s.handlers:
+            hs = pre.copy()
+            hs.ret = T.CONT if had_ret is None else had_ret
+            cond = ("u", "exc", f"{self.f.module.relpath}:{h.lineno}")
+            hs.conds = pre.conds + ((cond, True),)
+            ev.heap = dict(heap_pre)
+            # names assigned in the body have unknown values inside the handler
+            assigned, _ = _assigned_names(ast.Module(body=s.body, type_ignores=[]))
+            for n in assigned:
+                hs.env[n] = ev.opaque(f"try:{n}")
+            if h.name:
+                hs.env[h.name] = ev.opaque("exception")
+            self.exec_block(h.body, hs)
+            heap_h = ev.heap
+            # merge handler path (cond true) with the body path (cond false)
+            live = hs.live or st.live
+            if hs.ret == T.CONT and st.ret == T.CONT:
+                ret = T.CONT
+            else:
+                ret = T.phi(cond, hs.ret, st.ret)
+            if hs.live and not st.live:
+                st.env, st.conds, heap_body = hs.env, hs.conds, heap_h
+            elif st.live and hs.live:
+                st.env = _merge_maps(cond, hs.env, st.env)
+                heap_body = _merge_maps(cond, heap_h, heap_body, heap=True)
+            st.live, st.ret = live, ret
+        ev.heap = heap_body
+        if st.ret == T.CONT and had_ret is None:
+            st.ret = None
         self.exec_block(s.finalbody, st)
 
     # --------------------------------------------------------- assignment
